@@ -612,6 +612,7 @@ class ReachingDefs:
     def __init__(self, fn):
         self.fn = fn
         cfg = fn.cfg
+        self._udv = {}
         self.defs = []                 # index -> (decl, node, value)
         self.defs_of = defaultdict(list)
         self.gen_at = {}               # node id -> def index
@@ -697,11 +698,13 @@ class ReachingDefs:
                         wl.append(s)
         self.IN = IN
 
-    def reaching(self, use_node):
-        """def indices of use_node's variable that reach use_node"""
+    def reaching(self, use_node, decl=None):
+        """def indices of use_node's variable (or of `decl`) that reach
+        use_node"""
         fn = self.fn
         nd = fn.nodes[use_node]
-        decl = nd["decl"]
+        if decl is None:
+            decl = nd["decl"]
         pos = fn.cfg.position(use_node)
         if pos is None:
             return list(self.defs_of[decl])
@@ -715,13 +718,31 @@ class ReachingDefs:
         return cur
 
     def unique_def_value(self, use_node):
+        """value node of the single definition reaching use_node, provided
+        forward substitution is valid: every local mentioned in the value has
+        the same reaching definitions at the use as at the definition"""
+        key = use_node
+        if key in self._udv:
+            return self._udv[key]
         r = self.reaching(use_node)
-        if len(r) != 1:
-            return None
-        decl, node, val = self.defs[r[0]]
-        if val is None or val == "uninit" or node == "param":
-            return None
-        return val
+        res = None
+        if len(r) == 1:
+            decl, node, val = self.defs[r[0]]
+            if not (val is None or val == "uninit" or node == "param"):
+                fn = self.fn
+                ok = True
+                seen = set()
+                for j in fn.walk(val):
+                    nd = fn.nodes[j]
+                    if nd["k"] == "DeclRef" and nd["ref"] in ("local", "param") and nd["decl"] not in seen:
+                        seen.add(nd["decl"])
+                        if set(self.reaching(j)) != set(self.reaching(use_node, nd["decl"])):
+                            ok = False
+                            break
+                if ok:
+                    res = val
+        self._udv[key] = res
+        return res
 
     def def_values(self, use_node):
         """list of (def_node, value_node|None|'uninit'|'param')"""
